@@ -58,6 +58,13 @@ def garbage_typelevel(types, rng, tier):
                                         ("json", 2)):
                         c.add(t["tid"], f"iter {D} {T.render(s, p, 'indices')} {target} {cap} 2 0 1000", None,
                               f"iteration rooted at {p} of {t['label']} into a {target} target of capacity {cap}", "iterroot:smallcap")
+        # a USED iterator re-rooted: `next()` called a few times or to exhaustion, then `root(valid key)`, then iterated
+        if TL.leaf_count(s) <= 900:
+            nodes_ = [p for p in T.all_nodes(s, limit=30) if 1 <= len(p) <= 4]
+            for p in (nodes_ if tier != "quick" else rng.sample(nodes_, min(len(nodes_), 4))):
+                for pre in (1, 3, TL.leaf_count(s) + 2):
+                    c.add(t["tid"], f"iter 4 H{pre};{T.render(s, p, 'indices')} idx 64 2 0 1000", None,
+                          f"{pre} x next() on a fresh iterator of {t['label']}, then root({p}), then iteration", "iterroot:used")
         # near-valid JSON paths: the written form of a node with its tail cut / a delimiter dropped or doubled
         if TL.rep_ok(s, "json"):
             for p in T.all_nodes(s, limit=12):
